@@ -42,6 +42,7 @@ func (f *g2lFn) params() []nameType {
 func (f *g2lFn) compileBody(monad string) (lines []string) {
 	f.tmp, f.nloop, f.loops = 0, 0, nil
 	f.objNames, f.usedName = map[types.Object]string{}, map[string]bool{}
+	f.deferBody, f.inDefer = nil, false
 	f.monad = monad
 	sig := f.p.info.Defs[f.fd.Name].Type().(*types.Signature)
 	f.results = nil
@@ -121,7 +122,7 @@ func (f *g2lFn) emit() string {
 	for _, l := range f.loops {
 		l = strings.ReplaceAll(l, "\x00ABS\x00", absArgs)
 		tvs := ""
-		if usesTV(l) || absBinder != "" {
+		if usesTV(l + absBinder) {
 			tvs = typeVars
 		}
 		l = strings.ReplaceAll(l, "\x00ABSP\x00", tvs+absBinder)
@@ -133,7 +134,7 @@ func (f *g2lFn) emit() string {
 		paramStr += fmt.Sprintf("(%s : %s) ", p.name, p.typ)
 	}
 	tvs := ""
-	if usesTV(paramStr+f.retType+body) || absBinder != "" {
+	if usesTV(paramStr + f.retType + body + absBinder) {
 		tvs = typeVars
 	}
 	fmt.Fprintf(out, "/-- `%s` (%s) -/\n", f.goName, shortPos(f.pos(f.fd)))
